@@ -165,6 +165,24 @@ def anon_var_contract(chk):
            detail=str(bad) if bad else "run-time contract on the real method over 25 (base, name) pairs; unbounded proof: hv.pyvc K1 (C12 thorough)")
 
 
+def let_names_contract(chk):
+    """ScopeLet.add: every binding gets a name of its own from get_anon_var - also a second binding of the same user name
+    in the same let, and bindings of equal names in nested lets; distinct temporaries never share a name."""
+    import hy.scoping as hs
+    comp = sx.new_compiler()
+    issued = []
+    with comp.scope:
+        outer = comp.scope.create(hs.ScopeLet)
+        with outer:
+            issued += [str(outer.add(sx.S("v"))), str(outer.add(sx.S("w"))), str(outer.add(sx.S("v")))]
+            inner = comp.scope.create(hs.ScopeLet)
+            with inner:
+                issued += [str(inner.add(sx.S("v"))), str(inner.add(sx.S("v")))]
+    ok = len(set(issued)) == len(issued) and all(n.startswith("_hy_let_") for n in issued)
+    chk.ob("contract/ScopeLet.add issues a fresh reserved name for every binding, also when a let binds the same name twice",
+           ok, "structural", "proved", detail=str(issued))
+
+
 def run(chk):
     names = [n for n, e in catalog.ENTRIES.items() if catalog.supported(e) and n not in SKIP]
     chk.fn(*sorted({e.fn for e in catalog.ENTRIES.values() if e.fn}), "hy/compiler.py::HyASTCompiler.get_anon_var",
@@ -174,6 +192,7 @@ def run(chk):
     structural.run(chk, "names", provenance, names)
     frame_check(chk)
     anon_var_contract(chk)
+    let_names_contract(chk)
     # "so user variables keep their values across compiled constructs": semantic clause, with let-bound variables
     # (whose Python names are _hy_-prefixed, like the compiler's temporaries) as operands of every sequential construct
     from hv import rules, uservars
